@@ -248,3 +248,44 @@ Proof.
   split; [exact H|]. split; [exact M|]. split; [exact N|]. split; [lra|].
   apply (disc_accurate_dominant_lemma (/ 1024) _ _ _ _ H M). left. exact D.
 Qed.
+
+(* ---------------------------------------------------------------- the general statement: the conditioning of the discriminant *)
+(* kD >= (|b|^2 + 4|a||c|) / |b^2 - 4ac| is the condition number of the discriminant (kD <= 3 in the dominant case, large near a
+   double root): the discriminant is accurate to 5.11 eps kD, and the roots to (6 + 10.22 kD) eps *)
+Theorem disc_accurate_conditioned_lemma (eps : R) (O : RoundOps) (a b c : C) (kD : R) :
+  0 <= eps <= / 100 -> std_model eps O ->
+  Cmod b * Cmod b + 4 * (Cmod a * Cmod c) <= kD * Cmod (qdisc a b c) ->
+  disc_accurate O a b c (5.11 * eps * kD).
+Proof.
+  intros Heps HO HkD.
+  destruct (quad_core_o eps O a b c Heps HO) as (_ & HD & _). cbv zeta in HD.
+  destruct (numeric_bounds eps Heps) as (N1 & _).
+  unfold disc_accurate.
+  set (P := Cmod b * Cmod b + 4 * (Cmod a * Cmod c)) in *.
+  set (X5 := (1 + eps) * (1 + eps) * (1 + eps) * (1 + eps) * (1 + eps)) in *.
+  assert (PP : 0 <= P).
+  { unfold P. assert (0 <= Cmod b * Cmod b) by apply Rle_0_sqr.
+    assert (0 <= Cmod a * Cmod c) by (apply Rmult_le_pos; apply Cmod_ge_0). lra. }
+  assert (K1 : (X5 - 1) * P <= 5.11 * eps * P) by (apply Rmult_le_compat_r; lra).
+  assert (K2 : 5.11 * eps * P <= 5.11 * eps * (kD * Cmod (qdisc a b c))) by (apply Rmult_le_compat_l; lra).
+  lra.
+Qed.
+
+Theorem quadratic_forward_conditioned_lemma (eps : R) (O : RoundOps) (a b c : C) (kD : R) :
+  0 <= eps <= / 100 -> std_model eps O -> a <> C0 -> 0 <= kD ->
+  Cmod b * Cmod b + 4 * (Cmod a * Cmod c) <= kD * Cmod (qdisc a b c) -> 5.11 * eps * kD <= / 6 ->
+  exists r0 r1 x0 x1 : C, poly_solve (RoundRAo eps O) [c; b; a] false = Ok ([r0; r1], []) /\
+    (forall x : C, (a * x * x + b * x + c)%C = (a * (x - x0) * (x - x1))%C) /\
+    Cmod (r0 - x0)%C <= (6 + 10.22 * kD) * eps * Cmod x0 /\ Cmod (r1 - x1)%C <= (6 + 10.22 * kD) * eps * Cmod x1.
+Proof.
+  intros Heps HO Ha PkD HkD Hsmall.
+  pose proof (disc_accurate_conditioned_lemma eps O a b c kD Heps HO HkD) as HD.
+  pose proof Heps as [He0 He].
+  assert (Heta0 : 0 <= 5.11 * eps * kD) by (apply Rmult_le_pos; [lra | exact PkD]).
+  assert (Heta : 0 <= 5.11 * eps * kD <= / 6) by (split; assumption).
+  destruct (quadratic_forward_lemma eps O a b c (5.11 * eps * kD) Heps HO Ha Heta HD) as (r0 & r1 & x0 & x1 & E & F & B0 & B1).
+  exists r0, r1, x0, x1. split; [exact E|]. split; [exact F|].
+  pose proof (Cmod_ge_0 x0). pose proof (Cmod_ge_0 x1).
+  assert (Ek : (6 + 10.22 * kD) * eps = 6 * eps + 2 * (5.11 * eps * kD)) by nra.
+  rewrite Ek. split; assumption.
+Qed.
